@@ -1983,6 +1983,11 @@ class TypeDecorator(SchemaEventTarget, ExternalType, TypeEngine[_T]):
     def __getattr__(self, key: str) -> Any:
         """Proxy all other undefined accessors to the underlying
         implementation."""
+        if key.startswith("__") and key.endswith("__"):
+            # protocol lookups (pickle asks a half-constructed object for
+            # __setstate__) must not memoize impl_instance from the class
+            # level "impl"
+            raise AttributeError(key)
         return getattr(self.impl_instance, key)
 
     def process_literal_param(
